@@ -318,3 +318,71 @@ func symLiteralBool(v bool) *literal.Literal {
 	verif.Assume(err == nil)
 	return l
 }
+
+// C06 (concurrent): the UUID of a value is the same in every goroutine: two
+// goroutines compute UUIDs of different values at the same time, sharing the
+// sync.Pool of scratch buffers (Get may hand out the buffer the other goroutine
+// has just Put); every schedule at Get/Put granularity is explored.  Each
+// result must equal the UUID computed before the goroutines started.
+// Natively (replay) the values are large and the goroutines many, so that a
+// schedule-dependent counterexample has a chance to show.
+func HarnessC06Concurrent() {
+	idLen, workers, reps := 2, 2, 1
+	if !verif.Symbolic() {
+		idLen, workers, reps = 1<<16, 8, 40
+	}
+	mkID := func(c byte) string {
+		b := make([]byte, idLen)
+		for i := range b {
+			b[i] = c
+		}
+		return string(b)
+	}
+	kind := verif.Choice("kind", 4)
+	uuidOf := func(w int) uuid.UUID {
+		id := mkID(byte('a' + w%2))
+		switch kind {
+		case 0:
+			n, err := node.NewNodeFromStrings("/t", id)
+			verif.Assume(err == nil)
+			return n.UUID()
+		case 1:
+			p, err := predicate.NewImmutable(id)
+			verif.Assume(err == nil)
+			return p.UUID()
+		case 2:
+			l, err := literal.DefaultBuilder().Build(literal.Text, id)
+			verif.Assume(err == nil)
+			return l.UUID()
+		default:
+			n, err := node.NewNodeFromStrings("/t", id)
+			verif.Assume(err == nil)
+			p, err := predicate.NewImmutable(id)
+			verif.Assume(err == nil)
+			t, err := triple.New(n, p, triple.NewNodeObject(n))
+			verif.Assume(err == nil)
+			return t.UUID()
+		}
+	}
+	want := []uuid.UUID{uuidOf(0), uuidOf(1)}
+	got := make([][]uuid.UUID, workers)
+	done := make(chan int, workers)
+	for w := 0; w < workers; w++ {
+		w := w
+		go func() {
+			for r := 0; r < reps; r++ {
+				got[w] = append(got[w], uuidOf(w))
+			}
+			done <- w
+		}()
+	}
+	for w := 0; w < workers; w++ {
+		<-done
+	}
+	verif.Reach("joined")
+	for w := 0; w < workers; w++ {
+		for _, u := range got[w] {
+			verif.Assert(uuid.Equal(u, want[w%2]), "C06/concurrent/same-uuid-in-every-goroutine")
+		}
+	}
+}
